@@ -236,7 +236,9 @@ func retune(c *rig.Ctx) {
 		base := []uint16{0xff13, 0xff18, 0xff1d}[ch] // NRx3; NRx4 follows
 		switch ch {
 		case 0:
-			m.Mem.Write(0xff10, 0x00)
+			// half the time with the sweep unit enabled but idle (time 7, subtract, shift 0: it
+			// never changes the frequency and never overflows)
+			m.Mem.Write(0xff10, []uint8{0x00, 0x78}[(i/9)%2])
 			m.Mem.Write(0xff12, 0xf0)
 		case 1:
 			m.Mem.Write(0xff17, 0xf0)
